@@ -207,7 +207,7 @@ def obligations(tier, seed):
                 continue
             obs.append({"name": "equiv/%s/compress=%s/boundary=%s/verbose=%d" % (prog, comp, b, verb), "fn": "ob_equiv",
                         "mode": "S", "params": {"program": prog, "compress": comp, "boundary": b, "verbose": verb,
-                                                "n_values": 6 if tier == "quick" else 11},
+                                                "n_values": (4 if prog == "g" else 6) if tier == "quick" else 11},
                         "timeout": 600 if tier == "quick" else 2400,
                         "bounds": "forms 6x6, a in universe[:%d], third call same/neighbour value, b in {default, 2.0, 'a'}, "
                                   "check_call_in_cache first or not" % (6 if tier == "quick" else 11)})
